@@ -128,6 +128,16 @@ Definition roles_effects (k : kind) (r : role) (proxy : bool) (l : reach) : effe
       end
   end.
 
+(* two overlapping follower reads: A has adopted revision r and is about to scan; B then syncs against an
+   endpoint behaving as l.  Result: B's response class, every SetCurrentRevision value in order, the revision A
+   scans at (SetCurrentRevision is a plain store: B's value replaces A's). *)
+Definition overlap_model (r : N) (l : reach) : rclass * list N * N :=
+  match sync_read Follower l with
+  | SyncFail => (RespError, [r], r)
+  | SyncSet v => (RespOk, [r; v], v)
+  | SyncSkip => (RespOk, [r], r)
+  end.
+
 (* the outcome vocabulary of DESIGN.md, derived from the effects *)
 Inductive outcome :=
 | RejectUnavailable | Forward | ApplyLocal | WatchLocal | ServeLocal | ServeLocalAt (rev : N) | Error | Stub | Nothing.
